@@ -90,6 +90,19 @@ func (a *Application) isProviderSupported(provider string) bool {
 }
 
 // getProviderPrefix returns the URL prefix for a provider
+// providerPathSegment returns the provider segment of /olla/<provider>/... exactly as the
+// client wrote it (an alias such as lmstudio or lm_studio is not normalised)
+func providerPathSegment(path string) string {
+	if !strings.HasPrefix(path, constants.DefaultOllaProxyPathPrefix) {
+		return ""
+	}
+	rest := strings.TrimPrefix(path, constants.DefaultOllaProxyPathPrefix)
+	if i := strings.Index(rest, constants.DefaultPathPrefix); i >= 0 {
+		return rest[:i]
+	}
+	return rest
+}
+
 func getProviderPrefix(provider string) string {
 	// use the original provider name in the URL to maintain compatibility
 	// (e.g., if user accessed /olla/lmstudio/, keep that in the prefix)
